@@ -72,14 +72,15 @@ theorem ipGen_perm (tbl : List Group) (htbl : ∀ r ∈ tbl, SxVerif.Pratt.RowOK
     have := hp.mem_iff.mp hi
     rw [List.mem_range'_1] at this
     have : net.base + i - 1 < 2 ^ 32 := by omega
-    simp [this]
+    show (if net.base + i - 1 < 2 ^ 32 then _ else _) = _
+    rw [if_pos this]
   rw [hmap]
   have h2 := hp.map (fun i => IpItem.ip (.v4 (net.base + i - 1) false))
   refine h2.trans ?_
   have : (fun i => IpItem.ip (.v4 (net.base + i - 1) false))
       = (fun a => IpItem.ip (Addr.v4 a false)) ∘ (fun i => net.base + i - 1) := rfl
-  rw [this, ← List.map_map, map_base_range']
-  simp [addrsOfNet, List.map_map]
+  rw [this, ← List.map_map, map_base_range', addrsOfNet, List.map_map]
+  exact List.Perm.refl _
 
 theorem mem_addrsOfNet (net : Net) (hnet : NetOK net) (a : Addr) (h : a ∈ addrsOfNet net) :
     ∃ v, a = .v4 v false ∧ v < 2 ^ 32 := by
@@ -184,7 +185,7 @@ theorem portGen_perm (tbl : List Group) (htbl : ∀ r ∈ tbl, SxVerif.Pratt.Row
     simp only [validatePorts, Bool.and_eq_true, Bool.not_eq_true', List.isEmpty_eq_false_iff,
       List.all_eq_true, decide_eq_true_eq]
     exact ⟨hne, fun r hr => (hok r hr).2.1⟩
-  refine ⟨_, by simp [portGen, hv], ?_⟩
+  refine ⟨portItemsFrom tbl draws 0 ports, by simp [portGen, hv], ?_⟩
   exact portItemsFrom_perm tbl htbl hsorted hpmax draws ports 0
     (fun r hr => ⟨(hok r hr).2.1, (hok r hr).2.2⟩)
 
@@ -226,8 +227,9 @@ theorem excluded_eq_isExcluded (excl : List (Nat × Nat)) (a : Addr) :
     intro ⟨b, ones⟩
     have hs : 0 < 2 ^ (32 - ones) := Nat.pos_of_ne_zero (by simp)
     have := div_eq_iff_block a b (2 ^ (32 - ones)) hs
-    simp only [covered, beq_eq_decide_eq]  -- Bool equality of two `decide`s
-    exact decide_eq_decide.mpr this
+    rw [Bool.eq_iff_iff]
+    simp only [beq_iff_eq, decide_eq_true_eq]
+    exact this
 
 /-- **exclusion is exact**: the division test of the model is block membership -/
 theorem excluded_iff_covered (excl : List (Nat × Nat)) (a : Nat) (w : Bool) :
@@ -261,8 +263,7 @@ theorem chunks_go_spec (size : Nat) (hsize : 0 < size) :
       · refine ⟨by rw [List.length_take]; omega, ?_⟩
         intro h0
         have := congrArg List.length h0
-        rw [List.length_take] at this
-        simp at this
+        rw [List.length_take, List.length_nil] at this
         omega
       · exact ih2 c hc
 
@@ -270,11 +271,12 @@ theorem chunks_go_mem (size : Nat) :
     ∀ (fuel : Nat) (ps : List PortRange), ∀ c ∈ chunks.go size fuel ps, ∀ r ∈ c, r ∈ ps
   | 0, ps => by simp [chunks.go]
   | fuel + 1, ps => by
-    unfold chunks.go
-    by_cases hps : ps.isEmpty = true
-    · simp [hps]
-    · simp only [hps, if_false, List.mem_cons]
-      rintro c (rfl | hc) r hr
+    intro c hc r hr
+    unfold chunks.go at hc
+    split at hc
+    · simp at hc
+    · rw [List.mem_cons] at hc
+      rcases hc with rfl | hc
       · exact List.mem_of_mem_take hr
       · exact List.mem_of_mem_drop (chunks_go_mem size fuel (ps.drop size) c hc r hr)
 
